@@ -223,6 +223,7 @@ pub mod gaph_m {
 use super::*;
 impl CanonicalRequest {
 //@ fn canonical.rs impl CanonicalRequest :: get_auth_parameters_from_auth_header
+//@ params auth_header
 //@ hideutf8
 //@ props C08 C19 C13 C02 C17
 //@ ret r
@@ -356,6 +357,7 @@ pub mod gapq_m {
 use super::*;
 impl CanonicalRequest {
 //@ fn canonical.rs impl CanonicalRequest :: get_auth_parameters_from_query_parameters
+//@ params query_alg
 //@ hideutf8
 //@ props C08 C19 C13 C02 C17
 //@ ret r
@@ -460,6 +462,7 @@ pub mod gap_m {
 use super::*;
 impl CanonicalRequest {
 //@ fn canonical.rs impl CanonicalRequest :: get_auth_parameters
+//@ params signed_header_requirements
 //@ hideutf8
 //@ attr #[verifier::rlimit(40)] // five loop queries in a large context: slack so that an unrelated edit elsewhere in the unit cannot tip it over the default limit
 //@ props C08 C05 C19 C13 C17
@@ -605,6 +608,7 @@ impl CanonicalRequest {
 impl CanonicalRequest {
 
 //@ fn canonical.rs impl CanonicalRequest :: get_authenticator_from_auth_parameters
+//@ params auth_params
 //@ hideutf8
 //@ props C08 C01 C13 C16 C04 C17
 //@ ret r
@@ -676,6 +680,7 @@ impl CanonicalRequest {
         &&& (self.acceptable_params(always, ifreq, prefixes) ==> e is IncompleteSignature)
     }
 //@ fn canonical.rs impl CanonicalRequest :: get_authenticator
+//@ params signed_header_requirements
 //@ hideutf8
 //@ props C08 C01 C05 C13 C16 C19 C17
 //@ ret r
